@@ -238,6 +238,171 @@ def run_table1(params, known):
 
 
 # ---------------------------------------------------------------------------
+# several contacts in one process
+
+class MultiTlsWorld(World):
+    '''Several contacts of one process, each with a configuration of its own and a scripted peer;
+    started and answered one event at a time.'''
+
+    def __init__(self, specs):
+        World.__init__(self)
+        ns = _env.load_tcpcl('A')
+        ns.session.Connection.CHUNK_SIZE = 10240
+        self.specs = specs
+        self.logs = [[] for _ in specs]
+        self.paths = []
+        self.hdls = []
+        proc = self.add_proc('R')
+        for (i, spec) in enumerate(specs):
+            log = self.logs[i]
+
+            class Cfg(ns.config.Config):
+                def get_ssl_context(self_inner, log=log):
+                    if not self_inner.tls_enable:
+                        return None
+                    return FakeCtx(log, True, make_cert(()))
+            passive = spec['role'] == 'passive'
+            ridx = 1 if passive else 0
+            addr = [None, None]
+            addr[ridx] = (LOCAL_IP, 4556 if passive else 40000 + i)
+            addr[1 - ridx] = ('10.0.1.%d' % (i + 1), 40000 + i if passive else 4556)
+            conn = vnet.StreamConn('c%d' % i, addr0=addr[0], addr1=addr[1])
+            conn.sent_log = []
+            conn.ridx = ridx
+            self.conns.append(conn)
+            cfg = Cfg(tls_enable=spec['tls_enable'], require_tls=spec['require_tls'], require_host_authn=False,
+                      require_node_authn=False, node_id='dtn://local/', segment_size_mru=64, segment_size_tx_initial=64)
+            cfg._bus_conn = proc.bus
+            kwargs = dict(config=cfg, sock=conn.ends[ridx])
+            if passive:
+                kwargs['fromaddr'] = conn.addr[0]
+            else:
+                kwargs['toaddr'] = (addr[1 - ridx][0], 4556)
+            path = '/org/ietf/dtn/tcpcl/Contact%d' % i
+            self.paths.append(path)
+
+            def make(kwargs=kwargs, path=path):
+                return ns.session.ContactHandler(hdl_kwargs=kwargs, bus_kwargs=dict(conn=proc.bus, object_path=path))
+            hdl = self.in_proc(proc, make)
+            proc.roots['contact%d' % i] = hdl
+            self.hdls.append(hdl)
+        self.out = [b'' for _ in specs]
+        self.states = [[] for _ in specs]
+        self.escaped = []
+        self.collect(('init',))
+
+    def collect(self, event):
+        proc = self.procs['R']
+        for (i, conn) in enumerate(self.conns):
+            for (side, data) in conn.sent_log or []:
+                if side == conn.ridx:
+                    self.out[i] += data
+            conn.sent_log = []
+        for rec in proc.bus.drain_records():
+            if rec[0] == 'signal' and rec[3] == 'session_state_changed' and str(rec[1]) in self.paths:
+                self.states[self.paths.index(str(rec[1]))].append(str(rec[4][0]))
+        for esc in proc.ctx.escaped:
+            self.escaped.append((esc.exc_type, esc.exc_text, esc.tb))
+        proc.ctx.escaped = []
+        proc.ctx.warnings = []
+        return []
+
+    def quiesce(self):
+        proc = self.procs['R']
+        steps = 0
+        while self.runnable(proc):
+            steps += 1
+            if steps > 600:
+                raise HarnessError('endpoints do not become quiescent')
+            self.apply(('run', 'R'))
+            for conn in self.conns:
+                pipe = conn.buf[1 - conn.ridx]
+                if pipe:
+                    del pipe[:]
+
+    def start(self, i):
+        self.in_proc(self.procs['R'], self.hdls[i].start)
+        self.collect(('start', i))
+        self.quiesce()
+
+    def peer_write(self, i, data):
+        conn = self.conns[i]
+        if not conn.closed[conn.ridx]:
+            conn.buf[conn.ridx] += data
+        self.quiesce()
+
+
+def run_two_contacts(params, known):
+    '''Two contacts of one process with settings of their own (TLS offered or not, require_tls),
+    their starts and the arrival of the two peers' contact headers in all six orders; each contact
+    is judged by table 1 against the header it wrote itself and its own peer's header.'''
+    violations = []
+    kinds = set()
+    count = 0
+    keys = set()
+
+    def viol(kind, sig, detail, row):
+        key = (kind, tuple(sorted(sig.items())))
+        if key in kinds:
+            return
+        kinds.add(key)
+        v = Violation(PROP, 'tls-policy', kind, sig, '%r: %s' % (row, detail)).as_dict()
+        v['case'] = row
+        violations.append(v)
+    orders = [o for o in itertools.permutations(('start0', 'start1', 'hdr0', 'hdr1'))
+              if o.index('start0') < o.index('hdr0') and o.index('start1') < o.index('hdr1')]
+    settings = [(True, None), (True, True), (False, None), (False, False)]
+    for (s0, s1, role0, role1, peer0, peer1) in itertools.product(settings, settings, ('active', 'passive'), ('active', 'passive'),
+                                                                     (True, False), (True, False)):
+        if s0[0] == s1[0]:
+            continue
+        for order in orders:
+            count += 1
+            specs = [dict(role=role0, tls_enable=s0[0], require_tls=s0[1]), dict(role=role1, tls_enable=s1[0], require_tls=s1[1])]
+            peers = (peer0, peer1)
+            row = dict(contacts=specs, peers_can_tls=peers, order=order)
+            world = MultiTlsWorld(specs)
+            for ev in order:
+                i = int(ev[-1])
+                if ev.startswith('start'):
+                    world.start(i)
+                else:
+                    world.peer_write(i, T.enc_contact(1 if peers[i] else 0))
+            for i in (0, 1):
+                world.peer_write(i, T.enc_sess_init(0, 64, 1000, PEER_NODE))
+            if world.escaped:
+                viol('exception-escaped-callback', dict(exc=world.escaped[-1][0]), '%s: %s' % world.escaped[-1][:2], row)
+                continue
+            for i in (0, 1):
+                spec = specs[i]
+                (msgs, _rest) = T.parse_all(world.out[i], with_contact=True)
+                kinds_i = [m['kind'] for m in msgs]
+                wrote_header = bool(msgs and msgs[0]['kind'] == 'CONTACT')
+                offered = bool(msgs[0]['flags'] & 1) if wrote_header else spec['tls_enable']
+                if offered != spec['tls_enable']:
+                    viol('contact-header-does-not-follow-configuration', dict(), 'contact %d wrote CAN_TLS=%s' % (i, offered), row)
+                attempt = offered and peers[i]
+                require = spec['require_tls']
+                proceed = require is None or attempt == require
+                wrapped = any(e.startswith('wrap') for e in world.logs[i])
+                established = 'established' in world.states[i]
+                closed = world.conns[i].closed[world.conns[i].ridx]
+                obs = dict(contact=i, wrote=kinds_i, wrapped=wrapped, established=established, closed=closed)
+                if wrapped != (attempt and proceed):
+                    viol('tls-attempt-does-not-follow-the-contact-headers', dict(), 'both offer=%s: %r' % (attempt, obs), row)
+                if proceed:
+                    keys.add(repr((i, sorted(spec.items()), peers[i], order)))
+                    if kinds_i.count('SESS_INIT') != 1 or not established:
+                        viol('session-not-established-although-policy-allows', dict(), repr(obs), row)
+                else:
+                    if 'SESS_INIT' in kinds_i or established:
+                        viol('session-proceeds-against-tls-policy', dict(require=str(require)), repr(obs), row)
+                    if not closed:
+                        viol('connection-left-open-after-policy-failure', dict(), repr(obs), row)
+    return dict(name='two-contacts', evaluations=count, nontrivial_keys=sorted(keys), violations=violations, known=[], samples=[])
+
+
+# ---------------------------------------------------------------------------
 # settings that come from the configuration file
 
 ABSENT = object()
@@ -447,7 +612,8 @@ def run_table2(params, known):
 
 def scenarios(tier):
     out = [dict(name='table1', kind='enum', runner='run_table1', params=dict(name='table1'), weight=5),
-           dict(name='config-file', kind='enum', runner='run_config_file', params=dict(name='config-file'), weight=5)]
+           dict(name='config-file', kind='enum', runner='run_config_file', params=dict(name='config-file'), weight=5),
+           dict(name='two-contacts', kind='enum', runner='run_two_contacts', params=dict(name='two-contacts'), weight=5)]
     for part in range(8):
         name = 'table2-%d/8' % (part + 1)
         out.append(dict(name=name, kind='enum', runner='run_table2', params=dict(name=name, part=part, parts=8), weight=10))
@@ -459,6 +625,7 @@ ASSUMPTIONS = [
     'certificates are real X.509 (EC P-256, self-signed) carrying the chosen subject alternative names',
     'an identifier type "contradicts" when the certificate presents names of that type and none equals the reference; with no reference (peer DNS name unknown) a DNS name cannot contradict and cannot authenticate the host',
     'configuration file: read by the JSON-subset stand-in for PyYAML; every combination of absent / true / false / null / 0 / empty values of nine settings, and the TLS rows of table 1 with the settings taken from the file',
+    'two contacts of one process whose settings differ in tls_enable (8 pairs of settings x roles x peers offering TLS or not), started and answered in all 6 orders',
     'a correct scripted peer: contact header (flags octet 0x00, 0x01, 0x03, 0x81, 0xFE or 0xFF: reserved bits are ignored), then SESS_INIT announcing its node ID or a zero-length node ID (which no URI name of a certificate equals)',
 ]
 
